@@ -582,6 +582,9 @@ def build(ast, world: World):
         return tuple[tuple(args)]  # type: ignore
     if k == 'dict':
         return dict[args[0], args[1]]
+    if k == 'odict':
+        import collections
+        return t.OrderedDict[args[0], args[1]] if len(ast) % 2 else collections.OrderedDict[args[0], args[1]]
     if k == 'tlist':
         return t.List[args[0]]
     if k == 'tset':
@@ -722,7 +725,7 @@ def sample_value(ast, world: World, rng, valid_p=0.8, alphabet='mixed', depth=0)
         if rng.random() > valid_p:
             items = items[:-1] if items else [1]
         return tuple(items) if rng.random() < 0.3 else items
-    if k in ('dict', 'tdict', 'tmap'):
+    if k in ('dict', 'tdict', 'tmap', 'odict'):
         d = {}
         for _ in range(n_items()):
             kk = rec(ast[1])
@@ -870,7 +873,7 @@ def sample_instance_data(spec, binding, world, rng, valid_p, alphabet, depth):
 LEAF_SCALARS = ['int', 'float', 'str', 'bool', 'none', 'Fraction', 'Decimal', 'date', 'datetime', 'time',
                 'PurePath', 'Pattern', 'bytes', 'complex', 'any']
 
-ALL_KINDS = ['tvar', 'tagged', 'list', 'set', 'vtuple', 'tuple', 'dict', 'tlist', 'tset', 'tseq', 'tvtuple', 'ttuple', 'tdict', 'tmap',
+ALL_KINDS = ['odict', 'tvar', 'tagged', 'list', 'set', 'vtuple', 'tuple', 'dict', 'tlist', 'tset', 'tseq', 'tvtuple', 'ttuple', 'tdict', 'tmap',
              'opt', 'union', 'lit', 'ann', 'tl', 'dl', 'cls', 'enum', 'gen', 'vol', 'range', 'frozenset']
 
 
@@ -900,7 +903,7 @@ def _gen_type(rng, world: World, kinds, scalars, depth=0, max_depth=3, top=True,
         return [k, ['s', rng.choice([s for s in scalars if s in ('int', 'str', 'float', 'Fraction', 'date')] or ['int'])]]
     if k in ('tuple', 'ttuple'):
         return [k] + [sub() for _ in range(rng.choice([1, 2, 2, 3]))]
-    if k in ('dict', 'tdict', 'tmap'):
+    if k in ('dict', 'tdict', 'tmap', 'odict'):
         return [k, ['s', rng.choice([s for s in scalars if s in ('str', 'int')] or ['str'])], sub()]
     if k == 'union':
         if rng.random() < 0.35:
